@@ -54,6 +54,11 @@ func ReadFrom(r io.Reader) (*Index, error) {
 	if int32(idx.depth) < 0 {
 		return nil, errors.New("csi: invalid index depth value")
 	}
+	// Bin numbers are 32 bit values and positions 64 bit values, which
+	// bounds the geometries that can be represented.
+	if idx.depth > 10 || idx.minShift > 63 || idx.minShift+idx.depth*nextBinShift > 63 {
+		return nil, fmt.Errorf("csi: unsupported index geometry: minimum shift %d depth %d", idx.minShift, idx.depth)
+	}
 	var n int32
 	err = binary.Read(r, binary.LittleEndian, &n)
 	if err != nil {
